@@ -29,18 +29,49 @@ class _Break(Exception):
     pass
 
 
+_NO = object()
+
+
 class DictInterp:
     def __init__(self, module, depth=0):
         self.module = module
         self.depth = depth
 
     def call(self, fn, args):
+        import copy as _copy
+        saved = [dict(a) if isinstance(a, dict) else a for a in args]
         env = dict(zip(params_of(fn), args))
         try:
             self.block(fn.body, env)
         except _Ret as r:
             return r.v
+        except _Unknown as why:
+            # outside this small interpreter's fragment: the general one (sa/miniint.py) evaluates the same function on the same arguments
+            r = self._general(fn, saved)
+            if r is _NO:
+                raise why
+            for a, b in zip(args, saved):
+                if isinstance(a, dict) and isinstance(b, dict) and a is not b:
+                    a.clear()
+                    a.update(b)          # writes the function made to its arguments are made to the caller's objects
+                if r is b:
+                    r = a                # the function returned its own argument: the caller gets its own object back
+            return r
         return None
+
+    def _general(self, fn, args):
+        from ..miniint import IndexInterp
+        mod = getattr(fn, "_module", None) or self.module
+        if getattr(fn, "_cls", None) is not None or mod is None:
+            return _NO
+        env = dict(zip(params_of(fn), args))
+        env.update({"tuple": ("type", "tuple"), "dict": ("type", "dict"), "int": ("type", "int"), "float": ("type", "float")})
+        it = IndexInterp(env)
+        it.home = (getattr(mod, "repo", None), mod, None) if getattr(mod, "repo", None) is not None else None
+        try:
+            return it.run(fn.body)
+        except AnalysisError:
+            return _NO
 
     def block(self, stmts, env):
         for s in stmts:
@@ -276,6 +307,12 @@ def r_dictops(ctx):
                   {("P", "Q"): (S("u") + S("v")) * half, ("Q", "P"): (S("u") + S("v")) * half, ("R", "T"): S("w") * half, ("T", "R"): S("w") * half,
                    ("D", "D"): S("t"), "N": S("n"), 1: S("k")},
                   "each inner-product key shares its coefficient equally with its mirrored key; other keys unchanged"))
+    # empty arguments: still a new dictionary (an operator that gets back its operand's own dictionary and then writes into it changes the operand --
+    # the module-level null point / null expression have an empty decomposition)
+    cases.append(("prune_dict", [{}], {}, "an empty dictionary for an empty dictionary"))
+    cases.append(("merge_dict", [{}, {"B": S("b")}], {"B": S("b")}, "the other dictionary's content when one is empty"))
+    cases.append(("merge_dict", [{"A": S("a")}, {}], {"A": S("a")}, "the other dictionary's content when one is empty"))
+    cases.append(("symmetrize_dict", [{}], {}, "an empty dictionary for an empty dictionary"))
     n = 0
     for name, args, want, what in cases:
         fn = mod.functions.get(name)
@@ -284,13 +321,15 @@ def r_dictops(ctx):
         ctx.unit(name)
         n += 1
         ins = [dict(a) for a in args]
-        key = "%s::%s" % (name, "/".join(str(k) for k in list(args[0])[:3]))
+        key = "%s::%s" % (name, "/".join(str(k) for k in list(args[0])[:3]) or ("empty" + ("" if len(args) == 1 or not args[1] else " + " + "/".join(str(k) for k in list(args[1])[:3]))))
         try:
             got = DictInterp(mod).call(fn, ins)
             ok = _eq(got, want)
             msg = "returns %s" % what if ok else "on %s returns %s, specified %s (%s)" % (", ".join(_show(a) for a in args), _show(got), _show(want), what)
         except _Unknown as e:
             ok, msg = False, "transfer function not computable: %s" % e
+        if ok and isinstance(got, dict) and any(got is a for a in ins):
+            ok, msg = False, "on %s returns the argument itself, not a new dictionary: what the caller writes into the result lands in the operand" % ", ".join(_show(a) for a in args)
         ctx.ob("R-DICTOPS", key, ok, msg, loc(fn, fn))
         untouched = all(_eq(a, b) for a, b in zip(ins, args))
         ctx.ob("R-DICTOPS", key + "::operands untouched", untouched,
